@@ -179,6 +179,17 @@ def ob_get(n: int, k0: int, k1: int, k2: int, k3: int, h0: int, h1: int, h2: int
         finally:
             sys.setrecursionlimit(old_limit)
         results.append((None if got is None else list(got), list(decs)))
+        if not rev:
+            # resolution is a read of the table: asking again gives the same answer
+            decs2: List = []
+            del RET_LOG[:]
+            try:
+                got2 = al.get([key] + args, None, decorators=decs2)
+            except RecursionError:
+                got2 = "<RecursionError>"
+            again = (None if got2 is None else (got2 if isinstance(got2, str) else list(got2)), list(decs2))
+            if again != results[0]:
+                return viol("second-resolution-differs", lambda: f"table {desc} invoked as {[key] + args}: first resolution {results[0]}, the same call again {again} (the stored table was modified by resolving)")
     exp, exp_decs = reference(desc, key, args)
     got, decs = results[0]
     if results[0] != results[1]:
